@@ -53,7 +53,7 @@ CHECKS['C08'] = (
     'Proof (on the model): the closing prune_basis establishes distinct exponents / no unused primitive / no duplicate shell for any input, and '
     'get_basis always reaches it when a contraction option is set (decide over the regenerated block list). The remaining rules (type tags, duplicate '
     'columns, function_types) are checked on every explored result by the Lean validator model (correspondence-checked against validate_data) and by '
-    'the library validator: 2^6 option combinations x augmentation on store samples (exhaustive over the store in the thorough tier) and generated dictionaries. '
+    'the library validator: 2^6 option combinations x augmentation on store samples (22 entries in quick, 300 in thorough) and generated dictionaries. '
     'Whole-rule theorems: pruneShell_output_valid (every validator rule holds for what prune_shell returns, given a semantically well-formed, tagged, positive input; '
     '"no duplicate contraction" is the one hypothesis), pruneShell(s)_identity_on_valid (pruning valid data changes nothing), uncontractGeneral_valid and uncontractSegmented_valid (validateElement = none for '
     'everything uncontract_general / uncontract_segmented + prune returns on a valid element). Closure: final_prune_establishes_validity (prune_basis turns every prepared shell list - non-zero rectangular columns, right tag, positive exponents - into a valid element), makeGeneral_skip_valid, makeGeneral_full_valid, uncontractSpdf_prune_valid (valid in, valid out, with "no duplicate contraction" as the one hypothesis: it fails exactly when a contracted function occurs twice, the known finding F10b; since fix 78fc7083 for fused shells of any composition - the earlier hypothesis that every fused shell keeps a member <= max_am marked the point where the real code raised IndexError, F22). Generated dictionaries, incl. ones with a planted zero for one member of a fused shell, are also filed in a data directory each and retrieved by the real get_basis under all 64 flag combinations in an order of their own (F21 was found there). Partial: optimize_general and the augmentations are not in the closure; compositions of several options are covered by the sweep only.',
